@@ -3,20 +3,10 @@
 import json, os, sys
 HERE = os.path.dirname(os.path.dirname(os.path.abspath(__file__)))
 props = [json.loads(l) for l in open(os.path.join(HERE, 'properties.jsonl'))]
-# id -> (technique, level text, level note, design_ref)
-CLAIMED = {
- 'C18': ('jaxpr -> z3 QF_NRA, all-reals bounds + gradient-Lipschitz queries, replay on jitted code',
-         'Every stated bound, symmetry, exactness outside the band, friction bounds/convexity and C1 (gradient Lipschitz across all switches) is discharged by z3 for ALL real arguments and all widths > 1e-14, on formulas regenerated from the jaxprs of the real functions.',
-         'Real arithmetic (no IEEE rounding); eps <= 1e-14 handled as a separate case for min only; JAX tracing, vf.jx interpreter (validated each run on ground inputs), z3 trusted.', '5/C18'),
- 'C01': ('PX: real Python source of trust_region_minimize on z3 proxies, AST loop-body extraction (one inductive step from an arbitrary loop-head state), per-path QF_NRA queries, replay of models on the real source',
-         'One pass of the real inner trust-region loop body from ANY loop-head state satisfying the invariant, with an arbitrary (uninterpreted, functionally consistent) objective and all admissible settings symbolic: acceptance implies descent, True only with |g|^2 < tol^2, failure exits return the last accepted iterate, radius shrinks on poor/NaN ratio, invariant re-established; prologue/epilogue of the whole function; driver installs new parameters before the solve. Holds for every history by induction on the loop.',
-         'n=1 component mode; CG sub-solver and dogleg stubbed by arbitrary steps (C06 covers them); model change of a trial step assumed non-zero; convergence on convex problems only via a bounded n=1 obligation; real arithmetic. One open known finding (convergence test before acceptance).', '5/C01'),
- 'C17': ('jaxpr of rtsafe_ with an uninterpreted f (custom uf primitive), k-induction on the real while body in a NaN-tracking real encoding, z3; replay via Hermite interpolants on the real find_root',
-         'Base/step/exit obligations on the real loop body for ALL functions f (values and slopes are free symbols), all brackets, guesses, tolerances and iteration caps: bracket invariant, root inside, NaN iff unbracketed or cap exhausted, end-point roots exact, implicit-function derivative rule.',
-         'Continuity of f turns sign change into existence of a root (stated); number of iterations to converge is outside the claim; real arithmetic with an explicit non-finite flag.', '5/C17'),
-}
+CLAIMS = json.load(open(os.path.join(HERE, 'tools', 'claims.json')))
+CLAIMED = {k: (v['technique'], v['text'], v['note'], v['ref']) for k, v in CLAIMS.items()}
+NA = json.load(open(os.path.join(HERE, 'tools', 'not_applicable.json')))
 NA_DEFAULT = 'check not built yet in this round (design in DESIGN.md section 5); no claim is made'
-NA = {}
 checks = []
 for p in props:
     i = p['id']
